@@ -40,6 +40,8 @@ pub struct PuppetSpec {
     /// a source that reacts to being told to stop (merge / combine members only): inside that
     /// call, (0, j) the late sibling j greets, (1, j) the listenable sibling j emits its next item
     pub on_stop: Option<(u8, usize)>,
+    /// a second reaction of the same kind, performed right after the first one
+    pub on_stop2: Option<(u8, usize)>,
     /// for_each cases only: when the callback `f` is handed this puppet's k-th datum (0-based) it
     /// makes the (listenable) puppet emit its next script item from inside `f` - a subject that is
     /// fed, completed or failed by the very callback that consumes it
@@ -428,6 +430,7 @@ pub trait PuppetCtl: Send + Sync {
     /// forget every sink handle (breaks the source <-> sink reference cycles at the end of a case)
     fn teardown(&self);
     fn on_stop(&self) -> Option<(u8, usize)>;
+    fn on_stop2(&self) -> Option<(u8, usize)>;
     fn clone_ctl(&self) -> Box<dyn PuppetCtl>;
     fn set_stop_hook(&self, h: Arc<dyn Fn() + Send + Sync>);
     fn on_pull(&self) -> Option<usize>;
@@ -486,6 +489,9 @@ impl<T: Clone + Send + Sync + 'static> PuppetCtl for Arc<Puppet<T>> {
     }
     fn on_stop(&self) -> Option<(u8, usize)> {
         self.spec.on_stop
+    }
+    fn on_stop2(&self) -> Option<(u8, usize)> {
+        self.spec.on_stop2
     }
     fn clone_ctl(&self) -> Box<dyn PuppetCtl> {
         Box::new(Arc::clone(self))
